@@ -714,3 +714,47 @@ Proof.
   cbn [props set_props]. rewrite A2, A.
   eexists. split; [apply find_upd_same; [intros; reflexivity|exact Hf]|reflexivity].
 Qed.
+
+(* ================================================================== what a payout event means *)
+(* the events are not just labels: the refunds are credited to the depositors, the burns leave the
+   supply, and the module account is debited by exactly their sum *)
+Fixpoint refunds_to (a : Z) (evs : list event) : Z :=
+  match evs with
+  | [] => 0
+  | EvPay _ d r _ :: rest => (if d =? a then r else 0) + refunds_to a rest
+  end.
+Fixpoint burns_of (evs : list event) : Z :=
+  match evs with [] => 0 | EvPay _ _ _ b :: rest => b + burns_of rest end.
+Fixpoint refunds_of (evs : list event) : Z :=
+  match evs with [] => 0 | EvPay _ _ r _ :: rest => r + refunds_of rest end.
+
+Lemma refund_all_at : forall l b a id,
+  refund_all b l a = b a + refunds_to a (map (fun da => EvPay id (fst da) (snd da) 0) l).
+Proof.
+  induction l as [|[d x] r IH]; cbn; intros b a id; [lia|].
+  rewrite (IH _ a id). unfold bal_add. rewrite (Z.eqb_sym d a). destruct (a =? d); lia.
+Qed.
+
+Theorem pay_out_accounting : forall s p burn s1 ev,
+  pay_out s p burn = Some (s1, ev) ->
+  (forall a, bal s1 a = bal s a + refunds_to a ev) /\
+  burned s1 = burned s + burns_of ev /\
+  gov_bal s1 = gov_bal s - (refunds_of ev + burns_of ev) /\
+  refunds_of ev + burns_of ev = sum_deps (p_deps p).
+Proof.
+  unfold pay_out. intros until ev. destruct (gov_bal s <? sum_deps (p_deps p)); [discriminate|].
+  destruct burn; intro H; inversion H; subst; cbn.
+  - assert (A : forall l, (forall a, refunds_to a (map (fun da => EvPay (p_id p) (fst da) 0 (snd da)) l) = 0)
+                      /\ burns_of (map (fun da => EvPay (p_id p) (fst da) 0 (snd da)) l) = sum_deps l
+                      /\ refunds_of (map (fun da => EvPay (p_id p) (fst da) 0 (snd da)) l) = 0).
+    { induction l as [|[d x] r (I1 & I2 & I3)]; cbn; [auto|]. repeat split.
+      - intro a. rewrite I1. destruct (d =? a); reflexivity.
+      - lia.
+      - lia. }
+    destruct (A (p_deps p)) as (A1 & A2 & A3). repeat split; intros; rewrite ?A1, ?A2, ?A3; lia.
+  - assert (A : forall l, burns_of (map (fun da => EvPay (p_id p) (fst da) (snd da) 0) l) = 0
+                      /\ refunds_of (map (fun da => EvPay (p_id p) (fst da) (snd da) 0) l) = sum_deps l).
+    { induction l as [|[d x] r (I2 & I3)]; cbn; [auto|]. split; lia. }
+    destruct (A (p_deps p)) as (A2 & A3). repeat split; intros; rewrite ?A2, ?A3; try lia.
+    apply refund_all_at.
+Qed.
